@@ -700,6 +700,24 @@ def run(tier, seed, replay):
     ops_s = [(qutip.sigmam(), qutip.coefficient(rate_s)), (qutip.sigmap(), 0.15)]
     psis = (qutip.basis(2, 0) + 0.3 * qutip.basis(2, 1)).unit()
     tls = np.linspace(0, 2.0, 9)
+    # per-trajectory records stay aligned: entry i of runs_trace belongs to trajectory i, with and without improved sampling
+    for imp_ in (False, True):
+        try:
+            with warnings.catch_warnings():
+                warnings.simplefilter("ignore")
+                with core.time_limit(300):
+                    sal = qutip.NonMarkovianMCSolver(Hs_, ops_s, options={"progress_bar": "", "keep_runs_results": True, "store_states": True, "improved_sampling": imp_})
+                    ral = sal.run(psis, tls, ntraj=5, seeds=31)
+            rep.evaluations += 1
+            rep.count("nm-records-aligned")
+            ntr_ = len(ral.trajectories)
+            lens_ = {"runs_trace": len(ral.runs_trace), "runs_states": len(ral.runs_states), "collapse": len(ral.collapse), "seeds-minus-deterministic": ntr_}
+            if len(set(lens_.values())) != 1 or any(np.abs(np.asarray(ral.runs_trace[i_]) - np.asarray(ral.trajectories[i_].trace)).max() > 0 for i_ in range(min(ntr_, len(ral.runs_trace)))):
+                v(f"nm-records-aligned:improved={imp_}", f"nm_mcsolve (improved_sampling={imp_}, keep_runs_results): the per-trajectory records have lengths {lens_} for {ntr_} kept trajectories, or runs_trace[i] is not the trace of trajectories[i]", {"improved_sampling": imp_})
+        except core.CaseTimeout:
+            raise
+        except Exception as e:
+            v("nm-records-raises", f"{type(e).__name__}: {e}"[:240])
     for sd in (11, 12, 13):
         try:
             with warnings.catch_warnings():
